@@ -1,6 +1,7 @@
 package main
 
 import (
+	"os"
 	"fmt"
 	"strings"
 )
@@ -18,6 +19,44 @@ func numTemplate(eco string, k int, lens []int) string {
 		parts[i] = digitRun(lens[i%len(lens)])
 	}
 	return versionPrefix[eco] + strings.Join(parts, ".")
+}
+
+// upperMarkerEcos: ecosystems whose parsers accept upper-case letters in a marker (determined with
+// VX_C03_UPPER=all: the others reject them for every content).
+var upperMarkerEcos = map[string]bool{"alpm": true, "apache": true, "cargo": true, "conan": true, "debian": true, "gem": true, "github": true,
+	"golang": true, "hex": true, "maven": true, "npm": true, "nuget": true, "rpm": true, "semver": true}
+
+// upperMarkers: the markers with their literal letters in upper case (classes untouched).
+func upperMarkers(eco string, ms []string) []string {
+	if !upperMarkerEcos[eco] && os.Getenv("VX_C03_UPPER") != "all" {
+		return nil
+	}
+	var out []string
+	for _, m := range ms {
+		var sb strings.Builder
+		changed := false
+		for i := 0; i < len(m); i++ {
+			if m[i] == '{' {
+				j := strings.IndexByte(m[i:], '}')
+				if strings.HasPrefix(m[i:], "{[") {
+					j = strings.Index(m[i:], "]}") + 1
+				}
+				sb.WriteString(m[i : i+j+1])
+				i += j
+				continue
+			}
+			c := m[i]
+			if c >= 'a' && c <= 'z' {
+				c -= 32
+				changed = true
+			}
+			sb.WriteByte(c)
+		}
+		if changed && !has(ms, sb.String()) {
+			out = append(out, sb.String())
+		}
+	}
+	return out
 }
 
 // longMarker replaces the last digit position of a marker by an eight-digit number.
@@ -75,6 +114,9 @@ func init() {
 					return out
 				}
 				ms = markerSpec{older: withLong(ms.older), newer: withLong(ms.newer)}
+				// upper-case spellings of the named markers, where the ecosystem accepts them
+				ms.older = append(ms.older, upperMarkers(eco, ms.older)...)
+				ms.newer = append(ms.newer, upperMarkers(eco, ms.newer)...)
 				for _, base := range markerBases(eco) {
 					for _, m := range ms.older {
 						out = append(out, &Config{ID: fmt.Sprintf("C03/mark/%s/%s%s/older", eco, base, m), Pkg: zzhPkg, Func: "C03Mark", Args: []ArgSpec{ArgStr(eco), ArgTmpl(base), ArgTmpl(m), ArgInt(-1)}})
@@ -87,7 +129,7 @@ func init() {
 			return out
 		},
 		Bounds: func(tier string) string {
-			return "arities per DESIGN B.2; digit-run lengths {1,2,3,5,10} (thorough adds 4,7,9 and mixed lengths); values <= 2^31 without leading zeros; marker spellings per DESIGN B.3 on 2-4 base shapes, numbered markers with one digit and with eight digits"
+			return "arities per DESIGN B.2; digit-run lengths {1,2,3,5,10} (thorough adds 4,7,9 and mixed lengths); values <= 2^31 without leading zeros; marker spellings per DESIGN B.3 on 2-4 base shapes, numbered markers with one digit and with eight digits, and the markers in upper case for the 14 ecosystems that accept them"
 		},
 		Assume: []string{"marker direction table and arity table are spec-side (DESIGN B.2, B.3)"},
 	})
